@@ -359,14 +359,15 @@ Definition close_file (s : st) (fi : Z) : res unit :=
   if negb (in_use s) then Fail ADF_FILE_NOT_OPENED s
   else
     let r := flush_buffers (with_os s (set_sys_err (o_ s) 0)) fi true in
-    let fin (s : st) (e : Z) : res unit :=
+    (* if (CLOSE(fd) < 0) *error_return = FILE_CLOSE_ERROR;  -- a flush error is kept unless the close fails too *)
+    let fin (s : st) (e : option Z) : res unit :=
       let '(cr, errno, o') := sys_close (o_ s) in
       let s' := mkSt (if cr <? 0 then set_sys_err o' errno else o') (c_ s) false in
-      let e' := if cr <? 0 then FILE_CLOSE_ERROR else e in
-      if e' =? NO_ERROR then Done tt s' else Fail e' s' in
+      if cr <? 0 then Fail FILE_CLOSE_ERROR s'
+      else match e with None => Done tt s' | Some e => Fail e s' end in
     match r with
-    | Done _ s => fin s NO_ERROR
-    | Fail e s => fin s e
+    | Done _ s => fin s None
+    | Fail e s => fin s (Some e)
     | OutOfFuel => OutOfFuel
     end.
 
